@@ -44,6 +44,12 @@ OP_BOUNDS = {
     "psl": (0, 4096, 0, 4096),                # lookups borrow from the input
 }
 TIME_T_US = 2_000_000
+# time in proportion to the input: within a scaling group the largest input may take at most SCALING_K x (size ratio) x the
+# time of the smallest (never judged below SCALING_FLOOR_US, where timer noise dominates); quadratic behaviour gives the
+# square of the size ratio
+SCALING_SIZES = (10000, 80000)
+SCALING_K = 3
+SCALING_FLOOR_US = 1000
 KILL_MS = 4000           # the worker's watchdog: a decoder call running longer kills the worker (observed as a crash)
 MAX_COQ_LITERAL = 1500   # inputs longer than this are judged on the observation only (literal parse cost)
 
@@ -542,6 +548,13 @@ def gen_hid(run, scale):
     # declared length far above what is ever sent, on many channels (memory held per channel)
     many = [c.to_bytes(4, "little") + b"\x81\xff\xff" + bytes(57) for c in range(1, 301 if run.tier == "quick" else 5001)]
     out.append(case("many-pending-channels", many))
+    # processing time in proportion to the input: N and 8N init packets on as many distinct channels, each leaving a
+    # transaction open (BCNT one more than an init packet carries) - every packet must cost the same whatever the number of
+    # open channels (judged as a pair below: SCALING)
+    for n in SCALING_SIZES:
+        cs = case("pending-scaling-%d" % n, [c.to_bytes(4, "little") + b"\x81\x00\x3a" + bytes(57) for c in range(1, n + 1)])
+        cs["_scale_group"], cs["_scale_n"] = "hid-open-channels", n
+        out.append(cs)
     # the longest messages: 7608 bytes accepted by the sender, 65535 declared
     out.append(case("longest-message", hid_message_packets(7, 0x10, rb(rng, 7608))))
     long_seq = hid_message_packets(9, 0x10, bytes(65535))          # sequence numbers wrap in this writer: receiver must stop at 128
@@ -1023,6 +1036,31 @@ def check(run):
             failures.append((i, verdict(cases[i], best)))
         elif best["us"] > TIME_T_US:
             failures.append((i, "decoding took %.2f s for an input of %d bytes (bound %.1f s)" % (best["us"] / 1e6, cases[i]["_n"], TIME_T_US / 1e6)))
+    # time in proportion to the input, judged on pairs of equally shaped inputs of different size (re-measured alone, best of 3)
+    groups = {}
+    for i, c in enumerate(cases):
+        if c.get("_scale_group"):
+            groups.setdefault(c["_scale_group"], []).append(i)
+    scaling = {}
+    for g, idx in groups.items():
+        idx.sort(key=lambda i: cases[i]["_scale_n"])
+        lo, hi = idx[0], idx[-1]
+        def best_us(i):
+            b = outs[i].get("us") if "us" in outs[i] else None
+            for _ in range(2):
+                o2 = common.harness_one(binary, public(cases[i]), timeout=60)
+                if "us" in o2 and (b is None or o2["us"] < b):
+                    b = o2["us"]
+            return b
+        t_lo, t_hi = best_us(lo), best_us(hi)
+        if t_lo is None or t_hi is None:
+            continue          # a crash / kill of these cases is already a failure above
+        allowed = SCALING_K * (cases[hi]["_scale_n"] / cases[lo]["_scale_n"]) * max(t_lo, SCALING_FLOOR_US)
+        scaling[g] = {"n": [cases[lo]["_scale_n"], cases[hi]["_scale_n"]], "us": [t_lo, t_hi], "allowed_us": round(allowed)}
+        if t_hi > allowed:
+            failures.append((hi, "processing time out of proportion to the input: %d equally shaped packets took %.1f ms, %d took %.1f ms "
+                                 "(more than %d x the size ratio)" % (cases[hi]["_scale_n"], t_hi / 1000, cases[lo]["_scale_n"], t_lo / 1000, SCALING_K)))
+    run.cov["scaling"] = scaling
     # the same inputs on the development profile (debug assertions, integer-overflow checks): a decoder that only panics
     # there (arithmetic overflow, debug_assert!) still "panics on untrusted input"; timing and allocation bounds are not
     # judged on this build (it is slow by design), only the outcome class, which must equal the release build's
